@@ -54,6 +54,21 @@ def refusal (tokenConfigured : Bool) (reqTok : String) : Resp :=
   if tokenConfigured then .error errAuthNeededStatus (errJSON (badTokenDetail reqTok))
   else .error errAuthNeededStatus (errJSON notConfiguredDetail)
 
+/-! ## Request method
+
+`LnS` mounts the `/query/` sub-router with `Methods(…)` (`facts`: `queryMethods`, read off the walked
+mux — `["GET"]`).  A request to a `/query/` path with any other method does not match the sub-router;
+the catch-all `PathPrefix("/")` route matches it and `proxy` relays it to the upstream API: the
+router itself produces neither data nor the token checker's refusal. -/
+
+inductive RResp where
+  | handled (r : Resp)     -- the `/query/` sub-router matched: token checker, then the data handler
+  | proxied                -- relayed to the upstream API by the catch-all route
+  deriving Repr, DecidableEq
+
+def routerRespond (method cfgTok : String) (vals : List String) : RResp :=
+  if queryMethods.contains method then .handled (respond cfgTok vals) else .proxied
+
 /-! ## Reloads
 
 `QueryAuthToken` is reloadable configuration.  `queryTokenChecker` reads it inside the request
